@@ -38,6 +38,7 @@ pub fn run(tier: Tier, seed: u64) -> i32 {
         s.search("world-read-faults", "world", 10000, move || scenario_strategy(p3.clone()), &case);
     }
     crate::e2e::c06_e2e(&mut s);
+    crate::props::par::par_phase(&mut s, "C06");
     if tier == Tier::Thorough {
         crate::fuzzdrv::run_campaign(&mut s, "request", "C06");
     }
